@@ -4,7 +4,7 @@ use crate::util::*;
 
 fn gen_matrix(r: &mut Rng) -> Vec<f64> {
     use scad_tree::Mt4;
-    let kind = r.below(10);
+    let kind = r.below(13);
     let flat = |m: Mt4| -> Vec<f64> {
         let mut v = Vec::new();
         for c in [m.x, m.y, m.z, m.w] { v.extend([c.x, c.y, c.z, c.w]); }
@@ -29,6 +29,10 @@ fn gen_matrix(r: &mut Rng) -> Vec<f64> {
             let (a, b) = (r.angle(), r.angle()); let t = r.distinct(3);
             let k = if kind == 8 { (s, s, s) } else { (s, s * 0.1, s * 10.0) };
             flat(Mt4::translate_matrix(t[0], t[1], t[2]) * Mt4::rot_z_matrix(a) * Mt4::rot_x_matrix(b) * Mt4::scale_matrix(k.0, k.1, k.2)) }
+        10 => flat(Mt4::identity()),
+        11 => {                                                  // affine part plus a perspective row of small integers (projective, exact entries)
+            let mut v = r.distinct(16); v[3] = r.range(-2, 2) as f64; v[7] = r.range(-2, 2) as f64; v[11] = r.range(-2, 2) as f64; v[15] = *r.pick(&[0.0, 1.0, 1.0, 2.0]); v }
+        12 => { let d = r.distinct(16); (0..16).map(|i| if r.coin() { d[i] } else { *r.pick(&[0.0, 0.0, 1.0, -1.0]) }).collect() } // sparse, exact entries
         _ => { let mut v = vec![0.0; 16]; let d = r.distinct(4); v[0] = d[0]; v[5] = d[1]; v[10] = d[2]; v[15] = d[3]; v }
     }
 }
@@ -50,7 +54,17 @@ pub fn gen_args_mode(r: &mut Rng, sig: &str, special: bool, tiny: bool) -> Vec<f
                     // towards subnormals): guards of the form `len < eps` on normalisation show only there
                     let d = r.distinct(n);
                     if tiny || r.below(8) == 0 { let sc = *r.pick(&[1e-8, 1e-12, 1e-17, 1e-20, 1e-150]); out.extend(d.iter().map(|v| v * sc)); }
-                    else { out.extend(d); }
+                    else {
+                        // one vector in four carries exact 0 / 1 / -1 coordinates (axis-aligned vectors, directions with w = 0 and
+                        // points with w = 1): shortcuts keyed on an exact component show only there
+                        let mut d = d;
+                        if r.below(4) == 0 {
+                            if n == 4 { d[3] = *r.pick(&[0.0, 1.0, 0.0, 1.0, -1.0]); }
+                            let k = r.below(n as u64 + 1) as usize;
+                            for _ in 0..k { let i = r.below(n as u64) as usize; if !(n == 4 && i == 3) { d[i] = *r.pick(&[0.0, 0.0, 1.0, -1.0]); } }
+                        }
+                        out.extend(d);
+                    }
                 }
             }
             's' => { let v = if special { r.special() } else { r.cad() }; out.push(v); }
@@ -61,11 +75,17 @@ pub fn gen_args_mode(r: &mut Rng, sig: &str, special: bool, tiny: bool) -> Vec<f
                 out.push(i as f64);
             }
             'a' => out.push(if special { r.special() } else { r.angle() }),
-            'r' => out.push(match r.below(5) { 0 => *r.pick(&[-1.0, 1.0, 0.0, 0.5, -0.5]), _ => r.uniform(-1.0, 1.0) }),
+            'r' => out.push(match r.below(6) {
+                0 => *r.pick(&[-1.0, 1.0, 0.0, 0.5, -0.5]),
+                // right next to the ends of the domain and to zero: 1 - 10^-k, 10^-k
+                1 => { let e = 10f64.powi(-(r.range(1, 16) as i32)); let v = if r.coin() { 1.0 - e } else { e }; if r.coin() { v } else { -v } }
+                _ => r.uniform(-1.0, 1.0) }),
             'm' => out.extend(gen_matrix(r)),
             'u' => {
-                let v = match r.below(5) {
+                let v = match r.below(9) {
                     0 => vec![1.0, 0.0, 0.0], 1 => vec![0.0, 1.0, 0.0], 2 => vec![0.0, 0.0, 1.0],
+                    3 => vec![-1.0, 0.0, 0.0], 4 => vec![0.0, -1.0, 0.0], 5 => vec![0.0, 0.0, -1.0],
+                    6 => { let d = r.distinct(2); let l = (d[0]*d[0]+d[1]*d[1]).sqrt(); let mut v = vec![d[0]/l, d[1]/l]; v.insert(r.below(3) as usize, 0.0); v }
                     _ => { let d = r.distinct(3); let l = (d[0]*d[0]+d[1]*d[1]+d[2]*d[2]).sqrt(); vec![d[0]/l, d[1]/l, d[2]/l] }
                 };
                 out.extend(v);
@@ -93,7 +113,7 @@ pub fn gen_args_mode(r: &mut Rng, sig: &str, special: bool, tiny: bool) -> Vec<f
 fn gen_lookat(r: &mut Rng) -> Vec<f64> {
     let eye = r.distinct(3);
     let dir: Vec<f64> = match r.below(8) {
-        0 => vec![0.0, 0.0, 1.0], 1 => vec![0.0, 0.0, -1.0], 2 => vec![1.0, 0.0, 0.0], 3 => vec![0.0, -1.0, 0.0],
+        0 => vec![0.0, 0.0, 1.0], 1 => vec![0.0, 0.0, -1.0], 2 => vec![*r.pick(&[1.0, -1.0]), 0.0, 0.0], 3 => vec![0.0, *r.pick(&[1.0, -1.0]), 0.0],
         4 => vec![1e-9, 0.0, 1.0],
         _ => r.distinct(3),
     };
